@@ -7,6 +7,7 @@ the two error bounds below by spherical geometry (a bin is at most 360/59/2^18 d
 latitude and 360/(NL-1)/2^18 degree of longitude); that last step involves cos/asin and is not proved here.
 -/
 import SqModel.Proofs.CprMath
+import SqModel.Proofs.RatPrim
 
 namespace Sq.C08Math
 open Sq Sq.Spec Sq.CprMath
@@ -43,12 +44,16 @@ theorem cprLocation_correct (lat0 lon0 lat1 lon1 : ℚ) (form : ℕ) (hform : fo
   obtain ⟨k, hk, hlo1, hlo2⟩ := hL
   have hX0 : encLon 0 lat0 lon0 = cprEnc (dlon nl 0) lon0 := by unfold encLon; rw [← hnl]
   have hX1 : encLon 1 lat1 lon1 = cprEnc (dlon nl 1) lon1 := by unfold encLon; rw [← hzone]
+  -- the code's `m as i32` changes nothing: the zone-index difference of two 17-bit fields is small
+  have hfit := mm_fits (cprEnc (dlon nl 0) lon0) (cprEnc (dlon nl 1) lon1) nl
+    (by unfold cprEnc; omega) (by unfold cprEnc; omega) ⟨by omega, hr.2⟩
+  simp only at hfit
   unfold cprLocation
   simp only [lat_decode lat0 lat1 h0 h1 hlat, ← hzone, ← hnl, if_true, Int.tdiv_one, hX0, hX1]
   rcases hform with hf | hf <;> subst hf
-  · simp only [show ¬ ((0 : ℕ) = 1) by decide, if_false, Nat.cast_zero, sub_zero] at hk hlo1 hlo2 ⊢
+  · simp only [show ¬ ((0 : ℕ) = 1) by decide, if_false, Nat.cast_zero, sub_zero, ratToI32_int _ hfit] at hk hlo1 hlo2 ⊢
     exact ⟨_, k, rfl, hk, hlo1, hlo2⟩
-  · simp only [if_true, Nat.cast_one] at hk hlo1 hlo2 ⊢
+  · simp only [if_true, Nat.cast_one, ratToI32_int _ hfit] at hk hlo1 hlo2 ⊢
     exact ⟨_, k, rfl, hk, hlo1, hlo2⟩
 
 
